@@ -8,6 +8,6 @@ rsync -a --exclude target --exclude .git /repo/ $D/
 (cd $D && patch -p1 -s < "$P") || { echo "PATCH DID NOT APPLY"; rm -rf $D; exit 3; }
 cd /verif
 for id in "$@"; do
-  VERIF_REPO=$D ./check $id 2>&1 | grep -E "^(OK|VIOLATION|UNDECIDED|KNOWN)" | cut -c1-260
+  VERIF_OUT=$D/_out VERIF_REPO=$D ./check $id 2>&1 | grep -E "^(OK|VIOLATION|UNDECIDED|KNOWN)" | cut -c1-260
 done
 rm -rf $D
